@@ -1145,10 +1145,15 @@ class FuncRun(ExprMixin, InstrMixin, CallMixin):
                         except (Unsupported, KeyError, TypeError, IndexError):
                             return False
 
-                    def mk3(env, cid=cid, v0=v0, strict=cnd['tok'] == '<'):
+                    dy = defs.get(cnd['y']) if isinstance(cnd['y'], str) else None
+                    nonneg = dy is not None and dy['op'] == 'Call' and dy['call'].get('mode') == 'builtin' and dy['call'].get('callee') in ('len', 'cap')
+                    plain = nonneg and v0[0] == 'i' and v0[1] <= 0      # starts at 0 (or below), bound is a length: v <= bound outright
+
+                    def mk3(env, cid=cid, v0=v0, strict=cnd['tok'] == '<', plain=plain):
                         e_ = bound(env.state)
                         v = env.state.cells[cid]
-                        return T.or_(T.le(v, e_ if strict else T.add(e_, T.ONE)), T.le(v, v0))
+                        b_ = T.le(v, e_ if strict else T.add(e_, T.ONE))
+                        return b_ if plain else T.or_(b_, T.le(v, v0))
                     out.append(('%s <= max(loop bound%s, its value at loop entry)' % (defs[addr].get('name') or addr, '' if cnd['tok'] == '<' else ' + 1'), mk3, guard))
         return out
 
